@@ -112,13 +112,13 @@ def ctx_positions(code):
     return {"0005": [(0, 4)], "000C": [(0, 4)], "0404": [(0, 4), (10, 12)], "0418": [(4, 6)], "3220": [(4, 6)]}.get(code, [(0, 2)])
 
 
-def is_echo(cmd, pkt):
-    """WantEcho.rcvd_pkt: the packet's header with the placeholder replaced by the gateway's id == the command's tx_header (likewise replaced)."""
+def rule_echo(cmd, pkt):
+    """The model's echo rule: the packet's header with the placeholder replaced by the gateway's id == the command's tx_header (likewise replaced)."""
     return pkt._hdr.replace(HGI, GW) == cmd.tx_header.replace(HGI, GW)
 
 
-def is_reply(cmd, pkt):
-    """WantRply.rcvd_pkt, incl. the 0418 null-entry exception."""
+def rule_reply(cmd, pkt):
+    """The model's reply rule, incl. the 0418 null-entry exception."""
     rx = cmd.rx_header
     if not rx:
         return False
@@ -126,6 +126,84 @@ def is_reply(cmd, pkt):
     if rx[:8] == "0418|RP|" and rx[:-2] == pkt._hdr[:-2] and pkt.payload == NULL_0418:
         return True
     return pkt._hdr == rx
+
+
+class _Proto:
+    hgi_id = GW
+
+
+class _Ctx:
+    """Just enough of a ProtocolContext for the REAL state classes to decide about one packet."""
+
+    def __init__(self):
+        self._protocol = _Proto()
+        self._state = None
+        self.moves = []
+
+    def set_state(self, cls, result=None, **kw):
+        self.moves.append((cls.__name__, result))
+
+    def __repr__(self):
+        return "<ctx>"
+
+
+MISMATCH: list = []     # (which, frame, packet, rule, real): the model's rule against the real state classes
+
+
+def _want_echo(cmd):
+    from ramses_tx.protocol_fsm import IsInIdle, WantEcho  # noqa: PLC0415
+
+    c = _Ctx()
+    c._state = IsInIdle(c)
+    c._state.cmd_sent(cmd, is_retry=False)
+    assert c.moves == [("WantEcho", None)], c.moves
+    c._state = WantEcho(c)
+    c.moves.clear()
+    return c
+
+
+def fsm_echo(cmd, pkt):
+    """The REAL WantEcho.pkt_rcvd: 'echo', 'reply' (a reply arriving before the echo) or None."""
+    c = _want_echo(cmd)
+    c._state.pkt_rcvd(pkt)
+    if not c.moves:
+        return None
+    return "echo" if c._state._echo_pkt is pkt else "reply"
+
+
+def fsm_reply(cmd, echo, pkt):
+    """The REAL WantRply.pkt_rcvd after the real WantEcho took [echo]: is [pkt] taken for the reply?"""
+    from ramses_tx.protocol_fsm import WantRply  # noqa: PLC0415
+
+    c = _want_echo(cmd)
+    c._state.pkt_rcvd(echo)
+    if c.moves != [("WantRply", None)]:
+        return None                      # the echo was not taken / no reply is waited for
+    c._state = WantRply(c)
+    c.moves.clear()
+    c._state.pkt_rcvd(pkt)
+    return bool(c.moves) and c.moves[-1][1] is pkt
+
+
+def is_echo(cmd, pkt):
+    real, rule = fsm_echo(cmd, pkt), rule_echo(cmd, pkt)
+    if real != "reply" and (real == "echo") != rule:
+        MISMATCH.append(("echo", str(cmd), str(pkt), rule, real))
+    return real == "echo"
+
+
+def is_reply(cmd, pkt, echo=None):
+    rule = rule_reply(cmd, pkt)
+    if echo is None:
+        return rule
+    real = fsm_reply(cmd, echo, pkt)
+    if real is None:
+        real = False
+    if pkt._hdr == cmd.tx_header and real is False and rule:   # the real FSM refuses a second echo first
+        return real
+    if real != rule:
+        MISMATCH.append(("reply", str(cmd), str(pkt), rule, real))
+    return real
 
 
 def constructors():
@@ -200,14 +278,17 @@ def oracle(ctx: Ctx, per: int):
             ctx.violation("reply-not-recognised:RQ-1FC9-has-no-rx_header", f"{frame}: rx_header is {cmd.rx_header}, so no RP|1FC9 is recognised as its reply", case, "input")
             continue
         n_ok = 0
-        for _ in range(6):
-            rp = gen(rx, rnd)
+        for k in range(7):
+            null_entry = k == 6
+            if null_entry and (code, verb) != ("0418", "RQ"):
+                continue
+            rp = NULL_0418 if null_entry else gen(rx, rnd)      # "no entry at this index": carries index 00 whatever was asked
             if len(rp) % 2 or not 2 <= len(rp) <= 96:
                 continue
             if code in CODES_WITH_ARRAYS and len(rp) // 2 != CODES_WITH_ARRAYS[code][0]:
                 continue        # a proper reply to a request about one zone is one element
             rpl, ok = list(rp), True
-            for a, b in ctx_positions(code):
+            for a, b in ([] if null_entry else ctx_positions(code)):
                 if len(rpl) < b or len(cmd.payload) < b:
                     ok = False
                     break
@@ -218,7 +299,7 @@ def oracle(ctx: Ctx, per: int):
             line = f"045 {rverb} --- {cmd.dst.id} {GW} --:------ {code} {len(rp) // 2:03d} {rp}"
             try:
                 r = Packet.from_port(D, line)
-                recognised = is_reply(cmd, r)
+                recognised = is_reply(cmd, r, echo)
                 hdr = r._hdr
             except Exception as err:  # noqa: BLE001
                 why = "request-to-a-DTS-thermostat" if dts else f"{type(err).__name__}:{code}"
@@ -247,7 +328,7 @@ def oracle(ctx: Ctx, per: int):
             for what, ml in misses:
                 try:
                     m = Packet.from_port(D, ml)
-                    if m._hdr != hdr and is_reply(cmd, m):
+                    if m._hdr != hdr and m._hdr != cmd.rx_header.replace(HGI, GW) and is_reply(cmd, m, echo):
                         ctx.violation(f"near-miss-taken-for-the-reply:{what}", f"{ml} differs from the reply in its {what} but is recognised as the reply to {frame}", {**case, "packet": ml}, "input")
                     if m._hdr == hdr and what != "verb":
                         sig = f"near-miss-has-the-replys-header:{what}:{code}"
@@ -262,13 +343,16 @@ def run(ctx: Ctx) -> None:
     ctx.rule = ("(a) frames of every code x verb from the schema regexes (lowest/highest/random payloads), three address shapes, 16 device ids of 14 types: the model's "
                 "header and rx_header vs Packet._hdr and pkt_header(rx_header=True); (b) commands of the public constructors (zones 00/03/0B, log entries, OpenTherm ids, "
                 "fragments, 0005/000C roles) and raw RQ/W frames for 11 destination types: the echo with the gateway's real id, proper replies (payloads from the reply "
-                "regex carrying the request's context positions), near-misses differing in exactly one of verb / device / context, judged with the protocol FSM's "
-                "matching rule; non-trivial = every case; distinct = by frame")
-    ctx.assumptions += ["the matching rule of WantEcho/WantRply (protocol_fsm.py:563-654) is transcribed in the harness (is_echo/is_reply), incl. the placeholder substitution and the 0418 null-entry exception",
+                "regex carrying the request's context positions), near-misses differing in exactly one of verb / device / context, judged by the real protocol FSM state classes "
+                "(and by the model's matching rule, compared); non-trivial = every case; distinct = by frame")
+    ctx.assumptions += ["every echo / reply / near-miss decision is taken by the REAL IsInIdle.cmd_sent -> WantEcho.pkt_rcvd -> WantRply.pkt_rcvd on a stand-in context that only records set_state(); the model's rule (rule_echo/rule_reply, incl. the placeholder substitution and the 0418 null-entry exception) is compared with each of those decisions",
                         "a 'proper reply' repeats the request's context positions (payload[:2]; [:4] for 0005/000C; [:4]+[10:12] for 0404; [4:6] for 0418/3220) and is a single element for array-capable codes"]
     built = ctx.build("C06", THEOREMS)
     correspondence(ctx, built, 24 if thorough else 5)
+    MISMATCH.clear()
     oracle(ctx, 3 if thorough else 1)
+    ctx.obligation("correspondence:matching-rule-vs-real-WantEcho/WantRply", not MISMATCH, "correspondence",
+                   f"{len(MISMATCH)} decisions differ; first: {MISMATCH[0]}" if MISMATCH else "")
 
 
 def replay(case: dict) -> int:
